@@ -58,6 +58,7 @@ fn main() {
             let tier = args.get(3).cloned().or_else(|| std::env::var("VERIF_TIER").ok()).unwrap_or("quick".into());
             match find(&id) {
                 Some(c) => {
+                    check::spawn_watchdog(id.clone(), verif_dir.clone(), out_fd);
                     writeln!(out, "VERIF_SEED={} property={} tier={}", seed, id, tier).ok();
                     check::run_check(c.as_ref(), &tier, seed, &verif_dir, &mut out).exit
                 }
@@ -75,7 +76,10 @@ fn main() {
                 .and_then(|d| d["property"].as_str().map(|s| s.to_string()))
                 .unwrap_or_default();
             match find(&id) {
-                Some(c) => check::replay(c.as_ref(), &path, &mut out),
+                Some(c) => {
+                    check::spawn_watchdog(id.clone(), verif_dir.clone(), out_fd);
+                    check::replay(c.as_ref(), &path, &mut out)
+                }
                 None => {
                     writeln!(out, "replay file names unknown property {:?}", id).ok();
                     2
